@@ -66,11 +66,18 @@ def predictOp (j : Json) : R Json := do
     obj [("vec", ofOpt ofVecQ (predictVec M p)),
          ("rdm", ofOpt (fun r => ofList ofVecQ r.1) (predictRdm M p)),
          ("desc", ofOpt (fun r => ofDesc r.2) (predictRdm M p))]
+  let fitterName : Fitter → String
+    | .mock => "fit_mock" | .select => "fit_select" | .optimize => "fit_optimize"
+    | .interpolate => "fit_interpolate" | .regress => "fit_regress" | .regressNN => "fit_regress_nn"
+    | .optimizePositive => "fit_optimize_positive"
   pure (obj [("direct", ofList (one M) params),
              ("dict", match M2 with
                | some M' => ofList (one M') params
                | none => Json.null),
-             ("type", Json.str (toDict M).typeName)])
+             ("type", Json.str (toDict M).typeName),
+             ("default_fitter", Json.str (fitterName (defaultFitter M.kind))),
+             ("n_param", ofNat (nParam M)),
+             ("mock", ofVecQ (fitMock M))])
 
 /-- `subsample_pattern` on one vector, exactly -/
 def subsampleOp (j : Json) : R Json := do
@@ -127,6 +134,16 @@ def scoreOp (j : Json) : R Json := do
   let c ← common j
   let thetas ← fld j "thetas" >>= asList (asList asFloat)
   pure (ofList (fun θ => ofOpt ofFloat (scoreOf c θ)) thetas)
+
+/-- the objectives of `fit_optimize` (`_loss(theta)`) and `fit_optimize_positive`
+    (`_loss(theta ** 2)`) for given points, with a ridge weight -/
+def lossOp (j : Json) : R Json := do
+  let c ← common j
+  let thetas ← fld j "thetas" >>= asList (asList asFloat)
+  let ridge ← fld j "ridge" >>= asFloat
+  let positive ← asBool (fldD j "positive" (Json.bool false))
+  let score (θ : List Float) : Float := (scoreOf c θ).getD 0
+  pure (ofList (fun θ => ofFloat (if positive then lossPos score ridge θ else lossOf score ridge θ)) thetas)
 
 def unit (k i : Nat) : List Float := (List.range k).map (fun j => if j = i then 1 else 0)
 
@@ -189,6 +206,7 @@ def handle : Handler := fun op j =>
   | "c08.subsample" => some (subsampleOp j)
   | "c08.fit" => some (fitOp j)
   | "c08.score" => some (scoreOp j)
+  | "c08.loss" => some (lossOp j)
   | "c08.select" => some (selectOp j)
   | "c08.interp" => some (interpOp j)
   | "c08.nnls" => some (nnlsOp j)
